@@ -43,6 +43,9 @@ def gen_model(rng, T, smax, vals):
     # first two / three plus the remaining ones; the likelihood tables apply to the observation as documented (a model handed anything else answers from another table)
     c['obsmode'] = rng.choice([None, None, 'list', '2d', '2d+', '2d+', '3d', '3d+'])
     c['wrap'] = rng.choice([None, None, None, 'partial', 'object', 'method'])
+    # the reporting level of estimate() (0 silent, 1-2 messages, 3 a progress bar per epoch, which is also the default when the argument is left out):
+    # what is reported must not change what is decoded
+    c['verbose'] = rng.choice([0, 0, 1, 2, 3, 3, 'omit'])
     return c
 
 
@@ -150,7 +153,11 @@ def run_impl(case):
                  Q=lambda s1, s2, k, t: sign * 1.0,
                  P=lambda s, y, k, t: sign * float(p[k][::-1][idx(k, s)] if not case.get('dup') else 1.0), log=case['log'])
         h0.estimate(tr, names, mode=mode, verbose=0)
-    hmm.estimate(tr, names, mode=mode, verbose=0)
+    vb = case.get('verbose', 0)
+    if vb == 'omit':
+        hmm.estimate(tr, names, mode=mode)
+    else:
+        hmm.estimate(tr, names, mode=mode, verbose=vb)
     # the cost tables the implementation itself used
     pc = [[-hmm.Plog(lab(k, l), None, k, tr) for l in range(ns[k])] for k in range(T)]
     qc = [None] + [[[-hmm.Qlog(lab(k - 1, m), lab(k, l), k - 1, tr) for l in range(ns[k])] for m in range(ns[k - 1])] for k in range(1, T)]
@@ -232,10 +239,10 @@ def oracle(case, obs):
 def shrink(case):
     ns = case['ns']
     if len(ns) > 1:          # drop the last epoch
-        yield {'ns': ns[:-1], 'p': case['p'][:-1], 'q': case['q'][:-1], 'log': case['log']}
+        yield {'ns': ns[:-1], 'p': case['p'][:-1], 'q': case['q'][:-1], 'log': case['log'], 'verbose': case.get('verbose', 0)}
     for k in range(len(ns)):  # drop the last state of epoch k
         if ns[k] > 1:
-            c = {'ns': list(ns), 'p': [list(r) for r in case['p']], 'q': [None] + [[list(r) for r in m] for m in case['q'][1:]], 'log': case['log']}
+            c = {'ns': list(ns), 'p': [list(r) for r in case['p']], 'q': [None] + [[list(r) for r in m] for m in case['q'][1:]], 'log': case['log'], 'verbose': case.get('verbose', 0)}
             c['ns'][k] -= 1
             c['p'][k].pop()
             if k >= 1:
